@@ -44,14 +44,26 @@ LEVEL = "model_checking"
 MAX_N = 4
 MAX_W = 3
 LETTERS = ("one", "two", "slow", "syn", "lex", "empty")
-TASK_TIMEOUT = float(os.environ.get("VERIF_C18_TASK_TIMEOUT", "120"))
-REAL_TIMEOUT = float(os.environ.get("VERIF_C18_REAL_TIMEOUT", "180"))
+TASK_TIMEOUT = float(os.environ.get("VERIF_C18_TASK_TIMEOUT", "60"))  # one parse_single takes 0.2-0.5 s
+REAL_TIMEOUT = float(os.environ.get("VERIF_C18_REAL_TIMEOUT", "90"))  # one Parser.parse with the real pool takes ~1 s
+SEQ_TIMEOUT = float(os.environ.get("VERIF_C18_SEQ_TIMEOUT", "150"))  # one subtree of the sequential reference (<= 43 parse_single calls)
+HANG_LIMIT = 3  # after this many time-outs the remaining work of a phase is skipped (and the run says so)
 HORIZON = 200  # choice points per execution (4 tasks need 8)
 CAP = int(os.environ.get("VERIF_C18_MAX_SCHEDULES", "50000"))  # per (task list, workers)
 LIVE_ONLY = os.environ.get("VERIF_C18_LIVE", "") not in ("", "0")
 
 _S = {}  # per-process setup (alphabet, grammar, references); inherited by forked workers
 MEMO = None  # history-indexed reply memo shared by fork
+HANGS = None  # multiprocessing.Value shared by fork: worker time-outs seen so far
+
+
+def _hangs(bump=False):
+    if HANGS is None:
+        return 0
+    with HANGS.get_lock():
+        if bump:
+            HANGS.value += 1
+        return HANGS.value
 
 
 # --------------------------------------------------------------------------------------
@@ -271,6 +283,12 @@ def pairwise_rows(k, letters):
 
 
 def task_lists(tier):
+    only = os.environ.get("VERIF_C18_LISTS", "")
+    if only:  # developer run, e.g. VERIF_C18_LISTS="one,syn;lex,two,one"
+        out = [tuple(x.strip() for x in l.split(",")) for l in only.split(";") if l.strip()]
+        if any(x not in LETTERS for l in out for x in l) or any(not 1 <= len(l) <= MAX_N for l in out):
+            raise core.HarnessError("VERIF_C18_LISTS: letters are %s, at most %d per list" % (", ".join(LETTERS), MAX_N))
+        return out, "RESTRICTED by VERIF_C18_LISTS to %d lists: not the tier's space" % len(out)
     if tier == "thorough":
         out = []
         for n in range(1, MAX_N + 1):
@@ -295,7 +313,9 @@ def real_sizes(tier, index, letters):
         return list(range(1, 17))
     if tier == "quick":
         return [1, 2, 3, 4 + index % 13]
-    return sorted(set([1 + index % 3, 4 + index % 13, 16 if index % 2 else 4 + (index + 6) % 13]))
+    if len(letters) == 3:
+        return sorted(set([1 + index % 3, 4 + index % 13, 16 if index % 2 else 4 + (index + 6) % 13]))
+    return [1 + index % 3, 4 + index % 13]
 
 
 # --------------------------------------------------------------------------------------
@@ -348,6 +368,9 @@ def explore_item(item):
     states = set()
     edges = set()
     first = last = None
+    if _hangs() >= HANG_LIMIT:
+        st.update(capped=True, skipped=True, pairs=0, states=0, edges=0, insertion_orders=0, outcomes={}, first=None, last=None)
+        return st
 
     def once(ch):
         return execute(tasks, w, ch, memo)
@@ -380,6 +403,10 @@ def explore_item(item):
             if st["schedules"] >= CAP:
                 st["capped"] = True
                 break
+            if obs.get("raised") == "WorkerTimeout":  # do not wait once per schedule for the same hanging task
+                _hangs(bump=True)
+                st["capped"] = True
+                break
     st.update(pairs=len(pairs), states=len(states), edges=len(edges), insertion_orders=len(orders), outcomes=outcomes, first=first, last=last)
     return st
 
@@ -388,8 +415,12 @@ def warm_item(chain):
     """Run one chain of tasks through Parser.parse on one controlled worker (the only schedule),
     collecting the reply of every (history, task) along it."""
     memo = {}
+    if _hangs() >= HANG_LIMIT:
+        return memo, {"skipped": True}, [], 0, []
     with fast_conf():
         obs, ctl = execute(make_tasks(chain), 1, core.Chooser(), memo)
+    if obs.get("raised") == "WorkerTimeout":
+        _hangs(bump=True)
     return memo, obs, [move_text(m) for m in ctl.trace], ctl.executed, ctl.chooser.trace
 
 
@@ -431,7 +462,10 @@ def _seq_child(child, acc, wanted, prefixes):
 
 def _seq_root(arg):
     root, wanted, prefixes = arg
-    r = core.fresh_call(_seq_root_child, root, wanted, prefixes)
+    r = fork_jobs(lambda _: _seq_root_child(root, wanted, prefixes), [None], 1, SEQ_TIMEOUT)[0]
+    if r[0] == "timeout":
+        bad = {"raised": "Timeout", "message": "sequential parse_single over the lists starting with %r did not finish within %.0f s" % (list(root), SEQ_TIMEOUT)}
+        return {l: bad for l in wanted if l[: len(root)] == root and (len(root) == 2 or l == root)}
     if r[0] != "ok":
         raise core.HarnessError("sequential reference: %r" % (r,))
     return r[1]
@@ -469,8 +503,12 @@ def seq_reference(lists, seed):
 # daemonic workers; a hanging real pool must be killed, not waited for)
 
 
-def fork_jobs(fn, items, nproc, timeout, seed=0):
+def fork_jobs(fn, items, nproc, timeout, seed=0, stop_after_timeouts=None):
+    """fn(item) in a forked child of this process (own session, killed as a group when it exceeds
+    the time limit).  -> [("ok", value) | ("exc", ...) | ("timeout", ...) | ("skipped", ...)] in item order."""
     import random
+
+    n_timeouts = 0
 
     order = list(range(len(items)))
     random.Random(seed).shuffle(order)
@@ -481,6 +519,9 @@ def fork_jobs(fn, items, nproc, timeout, seed=0):
         while pos < len(order) and len(running) < nproc:
             i = order[pos]
             pos += 1
+            if stop_after_timeouts is not None and n_timeouts >= stop_after_timeouts:
+                results[i] = ("skipped", "not run: %d earlier runs hit the time limit" % n_timeouts)
+                continue
             r, w = os.pipe()
             pid = os.fork()
             if pid == 0:
@@ -527,6 +568,7 @@ def fork_jobs(fn, items, nproc, timeout, seed=0):
             os.close(fd)
             os.waitpid(pid, 0)
             results[i] = ("timeout", "no result within %.0f s" % timeout)
+            n_timeouts += 1
     return results
 
 
@@ -580,8 +622,11 @@ def case_base(chain, tasks):
 
 
 def run(ctx):
-    global MEMO
+    global MEMO, HANGS
+    import multiprocessing
+
     S = setup()
+    HANGS = multiprocessing.Value("i", 0)
     t0 = time.time()
     n_self = vpool.selftest(functools.partial(_strict_jobs, seed=ctx.seed))
     ctx.log("vpool selftest: %d executions agree with multiprocessing.Pool semantics (%.0f s)" % (n_self, time.time() - t0))
@@ -589,7 +634,7 @@ def run(ctx):
     lists = [tuple(l) for l in lists]
     ctx.log("%d task lists; sequential reference ..." % len(lists))
     seq = seq_reference(lists, ctx.seed)
-    nviol = 0
+    found = []  # (case, what); reported at the end, simplest first, the three kinds interleaved
 
     # sequential parse_single against the independent entry rules
     for l in lists:
@@ -598,12 +643,12 @@ def run(ctx):
         if d:
             c = case_base(chain_of(l), tasks)
             c.update(kind="sequential_reference", observed=seq[l], expected=expected_entries(tasks), diff=d[:12])
-            ctx.report(c, None, what="sequential parse_single over %s: %s" % (list(l), d[0]))
+            found.append((c, "sequential parse_single over %s: %s" % (list(l), d[0])))
     ctx.log("sequential reference done (%.0f s)" % (time.time() - t0))
 
     # ---- phase A: fill the reply memo (every entry comes from a real worker with that history)
     MEMO = {}
-    warm_runs = warm_exec = 0
+    warm_runs = warm_exec = warm_skipped = 0
     if not LIVE_ONLY:
         chains = set()
         for l in lists:
@@ -615,6 +660,9 @@ def run(ctx):
         ctx.log("memo: %d (history, task) pairs, %d maximal chains ..." % (len(chains), len(maximal)))
         res = core.pmap(warm_item, maximal, seed=ctx.seed, chunk=1)
         for chain, (memo, obs, moves, nexec, chtrace) in zip(maximal, res):
+            if obs.get("skipped"):
+                warm_skipped += 1
+                continue
             warm_runs += 1
             warm_exec += nexec
             for k, v in memo.items():
@@ -627,8 +675,8 @@ def run(ctx):
             d = diff_entries(expected_entries(tasks), obs, "entry rules")
             if d:
                 c = case_base(chain, tasks)
-                c.update(kind="model_schedule", workers=1, schedule=[c for c, _ in chtrace], arity=[n for _, n in chtrace], moves=moves, observed=obs, expected=expected_entries(tasks), diff=d[:12], note="sub-list run while filling the memo")
-                ctx.report(c, None, what="%s on 1 worker: %s" % ([L for _, L in chain], d[0]))
+                c.update(kind="model_schedule", workers=1, schedule=[x for x, _ in chtrace], arity=[n for _, n in chtrace], moves=moves, observed=obs, expected=expected_entries(tasks), diff=d[:12], note="sub-list run while filling the memo")
+                found.append((c, "%s on 1 worker: %s" % ([L for _, L in chain], d[0])))
         ctx.log("memo filled: %d entries from %d single-worker runs, %d task executions (%.0f s)" % (len(MEMO), warm_runs, warm_exec, time.time() - t0))
 
     # ---- phase B: every schedule of every (task list, workers)
@@ -662,14 +710,14 @@ def run(ctx):
         if s["capped"]:
             b["exhaustive"] = False
             capped.append([list(letters), w, s["schedules"]])
-        if len(chain) >= 2 and w >= 2 and s["pairs"] < 2:
+        submitted = 0 if s["first"] is None else sum(1 for m in s["first"]["trace"] if m["move"] == "dispatch")
+        if submitted >= 2 and w >= 2 and s["pairs"] < 2 and not s["capped"]:
             raise core.HarnessError("vacuous exploration: %r on %d workers exercised %d (assignment, completion order) pairs" % (letters, w, s["pairs"]))
         outcomes_per_list.setdefault(letters, set()).update(s["outcomes"])
         max_outcomes = max(max_outcomes, len(s["outcomes"]))
         for h, o in sorted(s["outcomes"].items(), key=lambda kv: kv[1]["choices"]):
             d = judge(tasks, seq[letters], o["obs"])
             if d:
-                nviol += 1
                 c = case_base(chain, tasks)
                 c.update(
                     kind="model_schedule", workers=w, schedule=o["choices"], arity=o["arity"], moves=o["moves"],
@@ -677,10 +725,10 @@ def run(ctx):
                     observed=o["obs"], expected=expected_entries(tasks), diff=d[:12],
                     schedules_with_this_outcome=o["count"], schedules_explored=s["schedules"], distinct_outcomes=len(s["outcomes"]),
                 )
-                ctx.report(c, None, what="%s on %d workers, %d of %d schedules (%d distinct outcomes), first: %s | %s" % (list(letters), w, o["count"], s["schedules"], len(s["outcomes"]), "; ".join(o["moves"]), d[0]))
+                found.append((c, "%s on %d workers, %d of %d schedules (%d distinct outcomes), first: %s | %s" % (list(letters), w, o["count"], s["schedules"], len(s["outcomes"]), "; ".join(o["moves"]), d[0])))
     # samples: a spread of real schedules
     for idx in sorted(set([len(items) - 1, len(items) // 2, len(items) // 3, 4, 1])):
-        if 0 <= idx < len(items):
+        if 0 <= idx < len(items) and stats[idx]["last"] is not None:
             s = stats[idx]
             ctx.sample({"tasks": [L for _, L in s["chain"]], "workers": s["w"], "schedule": s["last"]["choices"], "moves": s["last"]["moves"], "assignment": s["last"]["pair"][0], "completion_order": s["last"]["pair"][1], "schedules_of_this_exploration": s["schedules"], "distinct_outcomes": len(s["outcomes"]), "verdict": "equal to sequential parse_single" if not any(judge(make_tasks(s["chain"]), seq[tuple(L for _, L in s["chain"])], o["obs"]) for o in s["outcomes"].values()) else "violates"})
 
@@ -692,6 +740,8 @@ def run(ctx):
             continue  # thorough: all lists of <= 3 behaviours, and one order of every multiset of 4
         w = min(MAX_W, len(l))
         i = index_of[(chain_of(l), w)]
+        if stats[i]["capped"]:
+            continue
         live_items.append((i, (chain_of(l), w, stats[i]["last"]["choices"])))
     live_valid = 0
     if not LIVE_ONLY:
@@ -713,12 +763,15 @@ def run(ctx):
     for i, l in enumerate(lists):
         for k in real_sizes(ctx.tier, i, l):
             real_items.append((chain_of(l), k))
-    res = fork_jobs(real_job, real_items, core.NPROC, REAL_TIMEOUT, seed=ctx.seed)
-    real_ok = 0
+    res = fork_jobs(real_job, real_items, core.NPROC, REAL_TIMEOUT, seed=ctx.seed, stop_after_timeouts=2 * HANG_LIMIT)
+    real_ok = real_skipped = 0
     size_hist = {}
     for (chain, k), r in zip(real_items, res):
         letters = tuple(L for _, L in chain)
         tasks = make_tasks(chain)
+        if r[0] == "skipped":
+            real_skipped += 1
+            continue
         size_hist[k] = size_hist.get(k, 0) + 1
         if r[0] == "ok":
             obs = r[1]
@@ -730,18 +783,37 @@ def run(ctx):
         if d:
             c = case_base(chain, tasks)
             c.update(kind="real_pool", pool_size=k, observed=obs, expected=expected_entries(tasks), diff=d[:12])
-            ctx.report(c, None, what="real multiprocessing.Pool(%d) on %s: %s" % (k, list(letters), d[0]))
+            found.append((c, "real multiprocessing.Pool(%d) on %s: %s" % (k, list(letters), d[0])))
         else:
             real_ok += 1
-    ctx.log("real pool: %d runs, %d conform (%.0f s)" % (len(real_items), real_ok, time.time() - t0))
+    ctx.log("real pool: %d runs, %d conform, %d not run after repeated time-outs (%.0f s)" % (len(real_items) - real_skipped, real_ok, real_skipped, time.time() - t0))
+
+    by_kind = {}
+    for case, what in found:
+        by_kind.setdefault(case["kind"], []).append((case, what))
+    for v in by_kind.values():
+        v.sort(key=lambda cw: (len(cw[0]["letters"]), cw[0].get("workers", cw[0].get("pool_size", 0)), len(cw[0].get("schedule", [])), cw[0].get("schedule", []), cw[0]["letters"]))
+    for row in itertools.zip_longest(*[by_kind[k] for k in sorted(by_kind)]):
+        for cw in row:
+            if cw is not None:
+                ctx.report(cw[0], None, what=cw[1])
 
     multi = {repr(list(k)): len(v) for k, v in outcomes_per_list.items() if len(v) > 1}
     cov = {
         "states": tot["states"],
         "transitions": tot["edges"],
-        "traces_validated_against_impl": len(real_items),
+        "traces_validated_against_impl": len(real_items) - real_skipped,
+        "real_pool_runs_not_run_after_repeated_timeouts": real_skipped,
+        "explorations_skipped_after_repeated_worker_timeouts": sum(1 for s in stats if s.get("skipped")),
+        "memo_fill_runs_skipped_after_repeated_worker_timeouts": warm_skipped,
+        "worker_timeouts": HANGS.value,
         "real_pool_runs_conforming": real_ok,
         "real_pool_size_histogram": {str(k): v for k, v in sorted(size_hist.items())},
+        "evaluations": tot["schedules"],
+        "distinct_nontrivial": sum(s["pairs"] for (chain, w), s in zip(items, stats) if len(chain) >= 2 and w >= 2),
+        "rule": "one evaluation = one complete schedule (every dispatch and completion decision fixed) of the real Parser.parse under the controlled pool; "
+        "all schedules of every (task list, workers <= %d) are enumerated; distinct = distinct (task list, workers, task->worker assignment with per-worker order, completion order); "
+        "non-trivial = at least 2 tasks on at least 2 workers (otherwise there is a single schedule)" % MAX_W,
         "task_lists": len(lists),
         "task_list_rule": rule,
         "alphabet": {k: {"name": v[0], "parts": len(v[1])} for k, v in S["alpha"].items()},
@@ -754,7 +826,7 @@ def run(ctx):
         "bounds_completed": [bounds[k] for k in sorted(bounds)],
         "cap_per_exploration": CAP,
         "caps_hit": capped,
-        "exhaustive": not capped,
+        "exhaustive": not capped and not real_skipped and not os.environ.get("VERIF_C18_LISTS"),
         "symmetry_reduction": "idle workers with equal task histories: only the lowest-numbered is offered",
         "memo": "off (every schedule executed live)" if LIVE_ONLY else {
             "entries": len(MEMO), "single_worker_fill_runs": warm_runs, "task_executions_filling": warm_exec,
@@ -764,7 +836,7 @@ def run(ctx):
         "vpool_selftest_executions": n_self,
         "real_pool_sizes_rule": "1 behaviour%s: sizes 1..16; otherwise %s" % (
             " or 2 behaviours" if ctx.tier == "thorough" else "",
-            "sizes 1,2,3 and one of 4..16 rotating with the list index" if ctx.tier == "quick" else "three sizes rotating with the list index (one of 1..3, one of 4..16, and 16 or a second of 4..16)"),
+            "sizes 1,2,3 and one of 4..16 rotating with the list index" if ctx.tier == "quick" else "sizes rotating with the list index: one of 1..3 and one of 4..16, for 3 behaviours also 16 or a second of 4..16"),
     }
     return ctx.finish(
         cov,
@@ -806,7 +878,7 @@ def replay(ctx, path):
         d = diff_entries(expected_entries(tasks), seq, "entry rules")
     elif kind == "real_pool":
         d = []
-        for attempt in range(3):  # the real pool's schedule is not controllable
+        for attempt in range(8):  # the real pool schedules itself: a failure may not recur
             r = fork_jobs(real_job, [(chain, case["pool_size"])], 1, REAL_TIMEOUT)[0]
             obs = r[1] if r[0] == "ok" else {"raised": r[0], "message": repr(r)[:300]}
             d = judge(tasks, seq, obs)
